@@ -35,11 +35,24 @@ def main(argv):
     data = json.load(open(common.KNOWN_FILE))
     for e in data["findings"]:
         if e["id"] == kfid:
-            old = set(e.get("inputs", []))
-            e["inputs"] = sorted(old | set(hit))
+            if e.get("inputs_file"):
+                fp = os.path.join(common.VERIF, e["inputs_file"])
+                old = set()
+                if os.path.exists(fp) and "--replace" not in argv:
+                    old = set(l.rstrip("\n") for l in open(fp) if l.strip())
+                os.makedirs(os.path.dirname(fp), exist_ok=True)
+                with open(fp, "w") as f:
+                    for d in sorted(old | set(hit)):
+                        f.write(d + "\n")
+                e.setdefault("inputs", [])
+                new_n = len(old | set(hit))
+            else:
+                old = set(e.get("inputs", []))
+                e["inputs"] = sorted(old | set(hit))
+                new_n = len(e["inputs"])
             dv = set(e.get("divergence", [])) | set(divseen)
             e["divergence"] = sorted(dv)
-            print("entry %s: %d -> %d inputs" % (kfid, len(old), len(e["inputs"])))
+            print("entry %s: %d -> %d inputs" % (kfid, len(old), new_n))
             break
     else:
         raise SystemExit("no entry %s in known_findings.json (create it by hand first)" % kfid)
